@@ -275,8 +275,9 @@ def load_one(lit: LineIterator, norm_threshold: float = 1e-4) -> dict:
         "atnums": atnums,
         "obasis": obasis,
         "mo": mo,
-        "atcharges": atcharges,
     }
+    if atcharges is not None:
+        result["atcharges"] = atcharges
     _fix_molden_from_buggy_codes(result, lit, norm_threshold)
     return result
 
